@@ -647,6 +647,7 @@ class Oracle(object):
             status=dict(self.prev_status), queue=list(self.prev_queue), tuse=sim.instrument.telescope_use,
             prov=sch.provision_ingest, sstat=sch.schedule_status.value,
             dep={n: L['dep'] for n, L in self.ob.items()},
+            resident=sum(L['dep'] for n, L in self.ob.items() if L['dep'] and n not in self.prev_hfin),
             nopen=sum(len(x) for x in self.open_exec.values()), inflight=self.inflight)
 
     def on_pause(self, k):
@@ -1246,6 +1247,14 @@ class Oracle(object):
                 got = arr[k][t]
                 if got != want:
                     self.viol('C12', 'row_untrue', 'row %d %s=%s, true %s' % (t, k, got, want), site=k)
+            # free space also against the ledger of deposited data (the buffer's own figure is not the only truth:
+            # the same conservation C07 checks after every event, here for what the row reports)
+            if 'resident' in s:
+                want = self.sim.buffer.hot[0].total_capacity + self.sim.buffer.cold[0].total_capacity - s['resident']
+                got = arr['hot_buffer'][t] + arr['cold_buffer'][t]
+                if abs(got - want) > EPS:
+                    self.viol('C12', 'row_untrue', 'row %d hot_buffer+cold_buffer=%s, capacity minus resident data %s' % (
+                        t, got, want), site='free_space_vs_ledger')
         self.probe('rows_checked', min(nrows, len(self.snaps)))
         # overlapping ingests with staggered ends
         ends = sorted({L['fin_t'][0] for L in self.ob.values() if L['fin_t']})
